@@ -1,14 +1,17 @@
 (** C06 — gamma-function family: property theorems only.  Each is closed by [exact] of a lemma proved in
-    C06_Proofs_Fact.v / C06_Proofs_Gamma.v / C06_Proofs_QInt.v.  The model (C06_Model.v) is the term that is
+    C06_Proofs_Fact.v / C06_Proofs_Gamma.v / C06_Proofs_QInt.v / C06_Proofs_Seq.v (first part) and C06_Proofs_Quad.v / C06_Proofs_Inv.v /
+    C06_Proofs_Ser.v / C06_Proofs_Lanczos*.v (second part).  The model (C06_Model.v) is the term that is
     extracted and run against src/Special_Functions.cpp on every check.
 
-    NOT theorems (see checks/C06.py, LEVEL_TEXT): accuracy of GammaLn (Lanczos), of the truncated series /
-    continued fraction / quadrature against the true Gamma, P, Q for all (x,a); monotonicity in x; the range
-    [0,1] for a <= 100 in floating point; convergence of the Halley iteration of Inv_GammaP; Binomial_Coefficient for
-    n > 170.  They are covered by kernel-certified samples (S3) and implementation-side predicates (S4). *)
+    NOT theorems (see checks/C06.py, LEVEL_TEXT): accuracy of GammaLn (Lanczos) at non-integer arguments, of the continued
+    fraction / quadrature (and of the series at non-integer shapes) against the true P, Q for all (x,a); monotonicity in x; the
+    range [0,1] for a <= 100 in floating point; convergence of the Halley iteration of Inv_GammaP; Pascal's rule for
+    Binomial_Coefficient with n > 170; everything about rounding (the theorems are over the reals).  They are covered by
+    kernel-certified samples (S3) and implementation-side predicates (S4). *)
 From Coq Require Import Reals ZArith List Bool.
 From Coquelicot Require Import Coquelicot.
-From LP Require Import Num NumR C06_Model C06_Proofs_Fact C06_Proofs_Gamma C06_Proofs_QInt C06_Proofs_Seq C06_Proofs_Examples.
+From LP Require Import Num NumR C06_Model C06_Proofs_Fact C06_Proofs_Gamma C06_Proofs_QInt C06_Proofs_Seq C06_Proofs_Quad C06_Proofs_Inv
+  C06_Proofs_Ser C06_Proofs_Lanczos0 C06_Proofs_Lanczos C06_Proofs_Examples.
 (* C06_Proofs_Examples.v: concrete inputs satisfying the hypotheses of the implications below (non-vacuity) *)
 Import ListNotations.
 Local Open Scope bool_scope.
@@ -199,3 +202,135 @@ Theorem C06_q_integer_closed_form (n : nat) (x : R) :
   = 1 - / INR (fact n) * RInt (fun t => t ^ n * exp (- t)) 0 x.
 Proof. exact (q_integer_closed_form n x). Qed.
 Print Assumptions C06_q_integer_closed_form.
+
+(** ------------------------------------------------------------------------------------------------------------------
+    Second part: GammaLn / Gamma (domain, recurrence), the series at integer shapes, the quadrature branch, the inverses,
+    Binomial_Coefficient for n > 170.
+    ------------------------------------------------------------------------------------------------------------------ *)
+
+(** GammaLn, Gamma: x <= 0 exits, x > 0 answers, Gamma = exp(GammaLn) > 0 *)
+Theorem C06_gamma_domain (x : R) :
+  (x <= 0 -> gammaln ROps x = Exit /\ gamma ROps x = Exit) /\
+  (0 < x -> exists g, gammaln ROps x = Ok g /\ gamma ROps x = Ok (exp g) /\ 0 < exp g).
+Proof. exact (conj (fun H => conj (proj1 (gammaln_domain x) H) (proj1 (gamma_domain x) H)) (proj2 (gamma_domain x))). Qed.
+Print Assumptions C06_gamma_domain.
+
+(** "Gamma(x+1) = x*Gamma(x) ... to a few units in the last place" and "agree with an independent reference", for the Lanczos formula over
+    the reals.  (1) GammaLn(x+1) = GammaLn(x) + ln x + d and Gamma(x+1) = x Gamma(x) e^d with |d| <= 1e-14, for EVERY x in [2^-10, 10001]
+    (Coq-Interval, Taylor models).  (2) By induction along (1): |GammaLn(n+1) - ln n!| <= (n+1) 1e-14 at EVERY integer n <= 10000, and the factor
+    n!/exp(GammaLn(n+1)) = n!/Gamma(n+1) lies within e^(+-(n+1)1e-14).
+    _partial: the full statement is for all x > 0, against the true Gamma at every x, and for the rounded evaluation; x < 2^-10, x > 10001,
+    non-integer arguments against the true Gamma and the rounding errors of the double evaluation are covered by S3/S4 only. *)
+Theorem C06_lanczos_recurrence_partial :
+  (forall x : R, 1 / 1024 <= x <= 10001 ->
+    exists l1 l0 d, gammaln ROps (x + 1) = Ok l1 /\ gammaln ROps x = Ok l0 /\ l1 = l0 + ln x + d /\
+      gamma ROps (x + 1) = Ok (exp l1) /\ gamma ROps x = Ok (exp l0) /\ exp l1 = x * exp l0 * exp d /\ Rabs d <= 1 / 100000000000000) /\
+  (forall n : nat, (n <= 10000)%nat ->
+    exists gln, gammaln ROps (INR (S n)) = Ok gln /\ Rabs (gln - ln (INR (fact n))) <= INR (S n) * (1 / 100000000000000) /\
+      exp (- (INR (S n) * (1 / 100000000000000))) <= INR (fact n) / exp gln <= exp (INR (S n) * (1 / 100000000000000))).
+Proof. exact (conj gamma_recurrence lanczos_factor_integer). Qed.
+Print Assumptions C06_lanczos_recurrence_partial.
+
+(** The series branch at integer shapes a = q+1, every q, every x > 0, whatever index k the loop stops at: the value GammaPser returns is
+    Ptr * (q!/exp(GammaLn a)) where Ptr = e^-x sum_{i=q+1}^{q+1+k} x^i/i! is a truncation of the TRUE P(x,q+1) = (1/q!) RInt_0^x t^q e^-t:
+    0 <= Ptr <= P <= 1, the truncation error is e^-x times the remainder of the exponential series, and on GammaQ's series region x < a+1 the
+    loop's stopping test bounds it: P - Ptr <= Ptr 2^-52 (q+k+3).  With C06_lanczos_recurrence_partial (2) (the other factor) this is the
+    accuracy clause for integer shapes on the series branch over the reals. *)
+Theorem C06_gser_integer_shape (q : nat) (x v : R) : 0 < x -> gammap_ser ROps x (INR (S q)) = Ok v ->
+  exists k gln, gammaln ROps (INR (S q)) = Ok gln /\ (Z.of_nat k <= 100000)%Z /\
+    let P := / INR (fact q) * RInt (fun t => t ^ q * exp (- t)) 0 x in
+    let Ptr := exp (- x) * sum_f_R0 (fun j => x ^ (S q + j) / INR (fact (S q + j))) k in
+    v = Ptr * (INR (fact q) / exp gln) /\
+    0 <= Ptr <= P /\ P <= 1 /\
+    P - Ptr = exp (- x) * (exp x - sum_f_R0 (fun i => x ^ i / INR (fact i)) (S q + k)) /\
+    (x < INR (S q) + 1 -> P - Ptr <= Ptr * dbl_eps ROps * (INR (S q + k) + 2)).
+Proof. exact (gser_integer_shape_integral q x v). Qed.
+Print Assumptions C06_gser_integer_shape.
+
+(** Integrate / Adaptive_Simpson_Integration as GammaQint uses them: exact on every cubic polynomial for EVERY recursion depth, tolerance
+    and order of the limits (induction on the depth); antisymmetric in its limits for every integrand, and 0 on an empty interval *)
+Theorem C06_integrate_laws :
+  (forall (c0 c1 c2 c3 a b eps : R) (depth : nat),
+     integrate ROps (fun t => c0 + c1 * t + c2 * t ^ 2 + c3 * t ^ 3) a b eps depth =
+     (c0 * b + c1 * b ^ 2 / 2 + c2 * b ^ 3 / 3 + c3 * b ^ 4 / 4) - (c0 * a + c1 * a ^ 2 / 2 + c2 * a ^ 3 / 3 + c3 * a ^ 4 / 4)) /\
+  (forall (f : R -> R) (a b eps : R) (depth : nat),
+     integrate ROps f b a eps depth = - integrate ROps f a b eps depth /\ integrate ROps f a a eps depth = 0).
+Proof. exact (conj integrate_cubic (fun f a b eps depth => conj (integrate_swap f a b eps depth) (integrate_empty f a eps depth))). Qed.
+Print Assumptions C06_integrate_laws.
+
+(** The panel loop of GammaQint, every integrand, start, width and x: with enough fuel it returns acc + the panels
+    [t1 + k w, min(x, t1 + (k+1) w)], k < n, where n is the FIRST index with x <= t1 + n w (adjacent panels, the last one ends at x).
+    Refinement to a simple specification: on a cubic integrand panel loop + adaptive Simpson return acc + the exact integral from t1 to x
+    (no panel skipped, counted twice or reaching beyond x). *)
+Theorem C06_panel_loop_tiles :
+  (forall (f : R -> R) (x w : R) (fuel : nat) (t1 acc : R), x - t1 <= INR fuel * w ->
+     exists n, (n <= fuel)%nat /\ panel_loop ROps fuel f x w t1 acc = Ok (acc + panels f x w n t1) /\
+               x <= t1 + INR n * w /\ forall k, (k < n)%nat -> t1 + INR k * w < x) /\
+  (forall (c0 c1 c2 c3 x w : R) (fuel : nat) (t1 acc : R), 0 < w -> t1 <= x -> x - t1 <= INR fuel * w ->
+     panel_loop ROps fuel (cub c0 c1 c2 c3) x w t1 acc = Ok (acc + (cubI c0 c1 c2 c3 x - cubI c0 c1 c2 c3 t1))).
+Proof. exact (conj panel_loop_spec panel_loop_cubic). Qed.
+Print Assumptions C06_panel_loop_tiles.
+
+(** GammaQint(x,a), every a > 0 and x: never exits, never exhausts the model's panel fuel; right of the window a-1+10 sqrt a the answer is 0,
+    left of max(0, a-1-10 sqrt a) it is 1, inside it is 1 - clamp01(sum of n <= 20 adjacent panels of width sqrt a from tMin to x). *)
+Theorem C06_gammaq_int_regions (x a : R) : 0 < a ->
+  exists gln, gammaln ROps a = Ok gln /\
+  (q_tmax a < x -> gammaq_int ROps x a = Ok 0) /\
+  (x <= q_tmax a -> x < q_tmin a -> gammaq_int ROps x a = Ok 1) /\
+  (q_tmin a <= x <= q_tmax a ->
+     exists n, (n <= 20)%nat /\
+       gammaq_int ROps x a = Ok (1 - clamp01 (panels (q_integrand gln a) x (sqrt a) n (q_tmin a))) /\
+       x <= q_tmin a + INR n * sqrt a /\ forall k, (k < n)%nat -> q_tmin a + INR k * sqrt a < x).
+Proof. exact (gammaq_int_regions x a). Qed.
+Print Assumptions C06_gammaq_int_regions.
+
+(** a > 100: GammaQ answers a probability for every x >= 0, and Inv_GammaP answers a non-negative x for EVERY p (positive for 0 < p < 1):
+    no exit, no exhausted loop on the quadrature branch *)
+Theorem C06_large_a_total (x p a : R) : 100 < a ->
+  (0 <= x -> exists q, gammaq ROps x a = Ok q /\ 0 <= q <= 1) /\
+  (exists r, inv_gammap ROps p a = Ok r /\ 0 <= r /\ (0 < p < 1 -> 0 < r)).
+Proof. exact (fun H => conj (gammaq_large_a_total x a H) (inv_gammap_large_a_total p a H)). Qed.
+Print Assumptions C06_large_a_total.
+
+(** Inv_GammaP / Inv_GammaQ: the guards (a <= 0 exits; p >= 1 gives max(100, a + 100 sqrt a); p <= 0 gives 0), Inv_GammaQ(q,a) = Inv_GammaP(1-q,a) *)
+Theorem C06_inverse_guards (p a : R) :
+  (a <= 0 -> inv_gammap ROps p a = Exit) /\
+  (0 < a -> 1 <= p -> inv_gammap ROps p a = Ok (Rmax 100 (a + 100 * sqrt a))) /\
+  (0 < a -> p <= 0 -> inv_gammap ROps p a = Ok 0) /\
+  inv_gammaq ROps p a = inv_gammap ROps (1 - p) a.
+Proof.
+  exact (conj (proj1 (inv_gammap_guards p a)) (conj (proj1 (proj2 (inv_gammap_guards p a)))
+          (conj (proj2 (proj2 (inv_gammap_guards p a))) (inv_gammaq_is_inv_gammap p a)))).
+Qed.
+Print Assumptions C06_inverse_guards.
+
+(** Necessary for "P(Inv_GammaP(p,a),a) = p": for 0 < p < 1 the answer is positive - both initial guesses are positive and every Halley
+    iterate stays positive for ANY number of steps (the safeguard halves the iterate instead of crossing 0), whatever GammaP returns *)
+Theorem C06_inverse_positive :
+  (forall p a r : R, 0 < a -> 0 < p < 1 -> inv_gammap ROps p a = Ok r -> 0 < r) /\
+  (forall (p a gln a1 lna1 afac : R) (n : nat) (x r : R), 0 < x -> halley ROps p a gln a1 lna1 afac n x = Ok r -> 0 < r).
+Proof. exact (conj inv_gammap_positive halley_positive). Qed.
+Print Assumptions C06_inverse_positive.
+
+(** an exact solution of P(x,a) = p is returned untouched (fixed point of the iteration); and what the loop returns, for every number n of
+    steps: an iterate x_j (j <= n) of x' = next(x, corr(x, P(x,a))), and when it stopped early (j < n) the last correction was below 1e-8 times
+    the answer.  (Convergence of the iterates to the solution is NOT a theorem.) *)
+Theorem C06_halley_trace (p a gln a1 lna1 afac : R) :
+  (forall (k : nat) (x : R), 0 < x -> gammap ROps x a = Ok p -> halley ROps p a gln a1 lna1 afac (S k) x = Ok x) /\
+  (forall (n : nat) (x r : R), 0 < x -> halley ROps p a gln a1 lna1 afac n x = Ok r ->
+     exists j, (j <= n)%nat /\ r = halley_iter p a gln a1 lna1 afac j x /\
+       ((j < n)%nat -> exists y gp, 0 < y /\ gammap ROps y a = Ok gp /\
+           r = halley_next y (halley_corr p a gln a1 lna1 afac y gp) /\
+           Rabs (halley_corr p a gln a1 lna1 afac y gp) < 1 / 100000000 * r)).
+Proof. exact (conj (halley_fixed_point p a gln a1 lna1 afac) (halley_trace p a gln a1 lna1 afac)). Qed.
+Print Assumptions C06_halley_trace.
+
+(** Binomial_Coefficient on its GammaLn branch, EVERY n > 170 and 0 <= k <= n: answers floor(1/2 + exp(GammaLn(n+1) - GammaLn(k+1) - GammaLn(n-k+1)))
+    and leaves the factorial table alone; symmetry C(n,k) = C(n,n-k) now for every n (both branches).  Pascal's rule for n > 170 is NOT a theorem. *)
+Theorem C06_binomial_large :
+  (forall (tbl : list R) (n k : Z), (170 < n)%Z -> (0 <= k <= n)%Z ->
+     exists g1 g2 g3, gammaln ROps (IZR n + 1) = Ok g1 /\ gammaln ROps (IZR k + 1) = Ok g2 /\ gammaln ROps (IZR (n - k) + 1) = Ok g3 /\
+       binomial_step ROps tbl n k = (tbl, Ok (IZR (Int_part (1 / 2 + exp (g1 - g2 - g3)))))) /\
+  (forall n k : Z, (0 <= k <= n)%Z -> binomial ROps n k = binomial ROps n (n - k)).
+Proof. exact (conj binomial_large_defined binomial_symmetry_all). Qed.
+Print Assumptions C06_binomial_large.
